@@ -297,8 +297,16 @@ pub fn ev_arith(ty: &str, op: &str, a: U256, b: U256, c: U256) -> Value {
         ("dec256", "fromratio") => r256(guard(|| Decimal256::from_ratio(a, b).0)),
         ("dec256", "fromuint") => r256(guard(|| Decimal256::from_uint256(ua).0)),
         ("dec256", "cmp") => json!({"ok": true, "v": cmp_code(da.cmp(&db))}),
+        // constructors from a machine word (the low 64 bits of a) and the zero tests
+        ("dec256", "percent") => r256(guard(|| Decimal256::percent(a.low_u64()).0)),
+        ("dec256", "permille") => r256(guard(|| Decimal256::permille(a.low_u64()).0)),
+        ("u256", "from64") => r256(guard(|| Uint256::from(a.low_u64()).0)),
+        ("u256", "iszero") => json!({"ok": true, "v": ua.is_zero() as i32}),
+        ("dec256", "iszero") => json!({"ok": true, "v": da.is_zero() as i32}),
         _ => panic!("unknown arith op {} {}", ty, op),
     };
+    // (the word constructors see only the low 64 bits: that is the operand the event records)
+    let a = if matches!(op, "percent" | "permille" | "from64") { U256::from(a.low_u64()) } else { a };
     json!({"k": "arith", "ty": ty, "op": op, "a": j256(&a), "b": j256(&b), "c": j256(&c), "r": r,
            "args": [ty.to_string(), op.to_string(), a.to_string(), b.to_string(), c.to_string()],
            "h": format!("{} {} a={} b={} c={}", ty, op, a, b, c)})
@@ -819,8 +827,9 @@ pub fn run(seed: u64, n: usize, kinds: &[String], out: &mut dyn Write) -> std::i
             if !want("arith") {
                 continue;
             }
-            let ops: [(&str, &str); 19] = [
-                ("u256", "addassign"), ("dec256", "addassign"),
+            let ops: [(&str, &str); 24] = [
+                ("u256", "addassign"), ("dec256", "addassign"), ("dec256", "percent"), ("dec256", "permille"),
+                ("u256", "from64"), ("u256", "iszero"), ("dec256", "iszero"),
                 ("u256", "add"), ("u256", "sub"), ("u256", "mul"), ("u256", "muldec"), ("u256", "decmul"),
                 ("u256", "divdec"), ("u256", "mulratio"), ("u256", "to128"), ("u256", "from128"), ("u256", "cmp"),
                 ("dec256", "add"), ("dec256", "sub"), ("dec256", "mul"), ("dec256", "div"),
@@ -842,6 +851,7 @@ pub fn run(seed: u64, n: usize, kinds: &[String], out: &mut dyn Write) -> std::i
                 continue;
             }
             let a = pal256(&mut r);
+            let a = if op == "iszero" && r.chance(1, 3) { U256::zero() } else { a };
             // partner operands on the abort boundary of the product / sum / difference involved
             let b = match r.below(6) {
                 0 if !a.is_zero() => U256::MAX / a,
